@@ -87,6 +87,9 @@ impl XRefTable {
     pub fn push(&mut self, new_entry: XRef) {
         self.entries.push(new_entry);
     }
+    pub fn truncate(&mut self, len: usize) {
+        self.entries.truncate(len);
+    }
     pub fn num_entries(&self) -> usize {
         self.entries.len()
     }
